@@ -66,6 +66,12 @@ Theorem C32_conditions_false_not_honours :
 Proof. exact satisfies_false_not_honours. Qed.
 Print Assumptions C32_conditions_false_not_honours.
 
+(* the error-report probe used by the loop is the literal transcription of the report-building code *)
+Theorem C32_report_probe_equiv :
+  forall T e r, report_raises_spec T e r = report_raises T e r.
+Proof. exact report_raises_equiv. Qed.
+Print Assumptions C32_report_probe_equiv.
+
 (* selection by name performs no check: exactly the registered class, else the no-requested-engine error *)
 Theorem C32_select_by_name :
   forall T reg prefs r n s, get_engine_class T reg prefs (Some n) r = s ->
